@@ -191,16 +191,652 @@ def canonicalise(dotted: str, tree: ast.Module, reference: Optional[dict] = None
     reference = load_reference() if reference is None else reference
     refmod = reference.get(dotted, {})
     applied: Dict[str, Dict[str, str]] = {}
+    if not refmod:
+        return applied
+    inl = inline_new_helpers(tree, {k for k in refmod if not k.startswith('<')})
+    if inl:
+        applied["<inlined helpers>"] = {x: "" for x in inl}
+    keep_ifexp = refmod.get("<ifexp>", {})
     for q, fn in _function_nodes(tree):
         ref = refmod.get(q)
-        if not ref:
+        if ref is None:
             continue
-        m = rename_map(fn, ref)
+        nw = while_to_for(fn)
+        ni = ifexp_to_if(fn, set(keep_ifexp.get(q, [])))
+        ni += whole_array_rhs(fn)
+        ni += unguard_continue(fn)
+        if nw or ni:
+            applied.setdefault(q, {})[f"<{nw} while->for, {ni} ifexp->if>"] = ""
+        m = rename_map(fn, ref) if ref else {}
         if m:
             _Rename(m).visit(fn)
-            applied[q] = m
+            applied.setdefault(q, {}).update(m)
+        tmp = inline_new_temporaries(fn, {r[0] for r in ref})
+        if tmp:
+            applied.setdefault(q, {}).update({f"<inlined temporary {t}>": "" for t in tmp})
+            # names freed by the substitution may now align
+            m2 = rename_map(fn, ref) if ref else {}
+            if m2:
+                _Rename(m2).visit(fn)
+                applied[q].update(m2)
     return applied
 
 
+# =====================================================================================================================
+# Reference-guided structural normalisation: helpers and temporaries that the reference tree does not have are inlined.
+# Both are no-ops on the reference tree itself (nothing is "new" there), so the rules keep seeing exactly the code they
+# were written against; on a refactored tree they undo "extract helper" / "introduce temporary" / "collect kwargs in a dict".
+# Every step is an equivalence-preserving source transformation under stated side conditions; when a side condition
+# cannot be established the construct is left alone (the rules then judge the code as written).
+# =====================================================================================================================
+
+PURE_CALLS = {"len", "abs", "min", "max", "float", "int", "log", "log10", "sqrt", "exp", "float64", "float32", "int64", "int32", "int16", "bool",
+              "np.log", "np.log10", "np.sqrt", "np.exp", "np.abs", "np.sum", "np.float64", "np.float32", "np.arange", "np.dtype", "np.isnan", "np.isinf",
+              "np.isfinite", "np.cos", "np.sin", "np.zeros", "np.ones", "numpy.log", "str", "tuple", "dict", "isinstance", "np.diff", "np.any", "np.all",
+              "gammainc", "ndtri", "digamma", "erf", "hypot", "np.hypot", "cos", "sin", "isnan", "isinf", "np.where", "np.unique", "np.median", "np.nanmedian",
+              "np.searchsorted", "np.sort", "np.log1p", "sc.gammainc", "sc.ndtri", "sc.digamma", "math.erf", "math.sqrt", "math.log", "range", "enumerate", "zip"}
+PURE_METHODS = {"sum", "any", "all", "copy", "astype", "get", "mean", "min", "max", "get_index", "to_index", "notnull", "isnull", "items", "keys", "values"}
+
+
+def _is_pure(e: ast.AST) -> bool:
+    for n in ast.walk(e):
+        if isinstance(n, (ast.Yield, ast.YieldFrom, ast.Await, ast.NamedExpr, ast.Lambda)):
+            return False
+        if isinstance(n, ast.Call):
+            f = ast.unparse(n.func)
+            if f in PURE_CALLS:
+                continue
+            if isinstance(n.func, ast.Attribute) and n.func.attr in PURE_METHODS:
+                continue
+            return False
+    return True
+
+
+def _stores_in(nodes) -> Set[str]:
+    """Names assigned, or stored into through a subscript / attribute / augmented assignment, anywhere in `nodes`."""
+    out: Set[str] = set()
+    for root in nodes:
+        for n in ast.walk(root):
+            if isinstance(n, ast.Name) and isinstance(n.ctx, (ast.Store, ast.Del)):
+                out.add(n.id)
+            elif isinstance(n, (ast.Subscript, ast.Attribute)) and isinstance(n.ctx, (ast.Store, ast.Del)):
+                b = n
+                while isinstance(b, (ast.Subscript, ast.Attribute)):
+                    b = b.value
+                if isinstance(b, ast.Name):
+                    out.add(b.id)
+            elif isinstance(n, ast.AugAssign):
+                b = n.target
+                while isinstance(b, (ast.Subscript, ast.Attribute)):
+                    b = b.value
+                if isinstance(b, ast.Name):
+                    out.add(b.id)
+            elif isinstance(n, ast.Call) and ast.unparse(n.func).split(".")[-1] == "round" and len(n.args) == 3 and isinstance(n.args[2], ast.Name):
+                out.add(n.args[2].id)       # np.round(a, 0, out)
+    return out
+
+
+class _Subst(ast.NodeTransformer):
+    def __init__(self, mapping: Dict[str, ast.AST]):
+        self.m = mapping
+
+    def visit_Name(self, node):
+        if isinstance(node.ctx, ast.Load) and node.id in self.m:
+            import copy
+            return ast.copy_location(copy.deepcopy(self.m[node.id]), node)
+        return node
+
+
+def _blocks(fn: ast.AST):
+    """Every statement list of `fn` (bodies, orelse, handlers, finalbody), outermost first."""
+    for n in ast.walk(fn):
+        for fld in ("body", "orelse", "finalbody"):
+            b = getattr(n, fld, None)
+            if isinstance(b, list) and b and isinstance(b[0], ast.stmt):
+                yield n, b
+        if isinstance(n, ast.Try):
+            for h in n.handlers:
+                yield h, h.body
+
+
+def inline_new_temporaries(fn: ast.FunctionDef, ref_names: Set[str]) -> List[str]:
+    """Forward-substitute locals the reference function does not have: `t = <pure expr>` defined once, read only later in the same
+    block (or blocks nested in it), with no operand of the expression re-assigned or stored into in between."""
+    done: List[str] = []
+    changed = True
+    while changed:
+        changed = False
+        params = _params(fn)
+        all_stores: Dict[str, int] = {}
+        for n in ast.walk(fn):
+            if isinstance(n, ast.Name) and isinstance(n.ctx, (ast.Store, ast.Del)):
+                all_stores[n.id] = all_stores.get(n.id, 0) + 1
+        for owner, block in _blocks(fn):
+            for i, st in enumerate(block):
+                if not (isinstance(st, ast.Assign) and len(st.targets) == 1 and isinstance(st.targets[0], ast.Name)):
+                    continue
+                t = st.targets[0].id
+                if t in ref_names or t in params or all_stores.get(t, 0) != 1 or not _is_pure(st.value):
+                    continue
+                rest = block[i + 1:]
+                # every read of t lies in `rest`
+                reads_all = [n for n in ast.walk(fn) if isinstance(n, ast.Name) and n.id == t and isinstance(n.ctx, ast.Load)]
+                reads_rest = [n for r in rest for n in ast.walk(r) if isinstance(n, ast.Name) and n.id == t and isinstance(n.ctx, ast.Load)]
+                if len(reads_all) != len(reads_rest) or not reads_all:
+                    continue
+                if t in _stores_in(rest) - {t} or any(isinstance(n, (ast.Subscript, ast.Attribute)) and isinstance(n.ctx, ast.Store) and isinstance(n.value, ast.Name) and n.value.id == t
+                                                     for r in rest for n in ast.walk(r)):
+                    continue
+                free = {n.id for n in ast.walk(st.value) if isinstance(n, ast.Name)}
+                if free & _stores_in(rest):
+                    continue
+                # a use inside a nested function / lambda / comprehension would be evaluated later or repeatedly: only plain reads
+                nested_ok = True
+                for r in rest:
+                    for n in ast.walk(r):
+                        if isinstance(n, (ast.FunctionDef, ast.Lambda)) and any(isinstance(x, ast.Name) and x.id == t for x in ast.walk(n)):
+                            nested_ok = False
+                if not nested_ok:
+                    continue
+                # if the definition sits in a loop body the operands change per iteration: fine, reads are in the same iteration (rest of the block)
+                sub = _Subst({t: st.value})
+                for k in range(i + 1, len(block)):
+                    block[k] = sub.visit(block[k])
+                del block[i]
+                if not block:
+                    block.append(ast.copy_location(ast.Pass(), st))
+                done.append(t)
+                changed = True
+                break
+            if changed:
+                break
+    if done:
+        _expand_star_dicts(fn)
+        ast.fix_missing_locations(fn)
+    return done
+
+
+def _expand_star_dicts(fn: ast.AST):
+    """f(a, **{'k': v, ...}) -> f(a, k=v, ...) for literal dicts with string keys (after a kwargs temporary was inlined)."""
+    for c in ast.walk(fn):
+        if isinstance(c, ast.Call):
+            new = []
+            for k in c.keywords:
+                if k.arg is None and isinstance(k.value, ast.Dict) and all(isinstance(x, ast.Constant) and isinstance(x.value, str) for x in k.value.keys):
+                    new += [ast.keyword(arg=kk.value, value=vv) for kk, vv in zip(k.value.keys, k.value.values)]
+                elif k.arg is None and isinstance(k.value, ast.Call) and ast.unparse(k.value.func) == "dict" and not k.value.args:
+                    new += [ast.keyword(arg=kk.arg, value=kk.value) for kk in k.value.keywords]
+                else:
+                    new.append(k)
+            c.keywords = new
+
+
+def _simple_helper(h: ast.FunctionDef) -> Optional[Tuple[List[ast.stmt], Optional[ast.AST]]]:
+    """(body statements without docstring and final return, return expression) when `h` has a single exit at its end."""
+    a = h.args
+    if a.vararg or a.kwarg or a.kwonlyargs or a.posonlyargs:
+        return None
+    body = list(h.body)
+    if body and isinstance(body[0], ast.Expr) and isinstance(body[0].value, ast.Constant) and isinstance(body[0].value.value, str):
+        body = body[1:]
+    ret = None
+    if body and isinstance(body[-1], ast.Return):
+        ret = body[-1].value
+        body = body[:-1]
+    for st in body:
+        for n in ast.walk(st):
+            if isinstance(n, (ast.Return, ast.Yield, ast.YieldFrom, ast.Global, ast.Nonlocal)):
+                return None
+            if isinstance(n, ast.Call) and isinstance(n.func, ast.Name) and n.func.id == h.name:
+                return None
+    return body, ret
+
+
+RETVAR = "__verif_ret__"
+
+
+def _return_tree(h: ast.FunctionDef) -> Optional[List[ast.stmt]]:
+    """Body of a helper whose returns all sit in tail position of an if/else tree (guard clauses included), restructured so that every
+    `return E` becomes `__verif_ret__ = E` at the end of its arm. None when a return sits anywhere else (inside a loop, a try, ...)."""
+    import copy
+    a = h.args
+    if a.vararg or a.kwarg or a.kwonlyargs or a.posonlyargs:
+        return None
+    body = list(h.body)
+    if body and isinstance(body[0], ast.Expr) and isinstance(body[0].value, ast.Constant) and isinstance(body[0].value.value, str):
+        body = body[1:]
+
+    def has_ret(nodes) -> bool:
+        return any(isinstance(n, (ast.Return, ast.Yield, ast.YieldFrom)) for s_ in nodes for n in ast.walk(s_))
+
+    def mk(e, at):
+        return ast.copy_location(ast.Assign(targets=[ast.Name(id=RETVAR, ctx=ast.Store())], value=e if e is not None else ast.Constant(value=None)), at)
+
+    def conv(stmts) -> Optional[List[ast.stmt]]:
+        stmts = [copy.deepcopy(s_) for s_ in stmts]
+        for i, st in enumerate(stmts):
+            if not has_ret([st]):
+                continue
+            if isinstance(st, ast.Return):
+                return stmts[:i] + [mk(st.value, st)]          # anything after a return is dead
+            if isinstance(st, ast.If):
+                b_ends = _always_returns(st.body)
+                o_ends = _always_returns(st.orelse) if st.orelse else False
+                rest = stmts[i + 1:]
+                if b_ends and not st.orelse:
+                    nb, no = conv(st.body), conv(rest)
+                elif b_ends and o_ends:
+                    nb, no = conv(st.body), conv(st.orelse)
+                    rest = []
+                elif o_ends and not has_ret(st.body):
+                    nb, no = conv(st.body + rest), conv(st.orelse)
+                else:
+                    return None
+                if nb is None or no is None:
+                    return None
+                st.body, st.orelse = nb, no
+                return stmts[:i] + [st]
+            return None
+        return stmts + [mk(None, h)]
+    return conv(body)
+
+
+def _always_returns(stmts) -> bool:
+    if not stmts:
+        return False
+    last = stmts[-1]
+    if isinstance(last, ast.Return):
+        return True
+    if isinstance(last, ast.If) and last.orelse:
+        return _always_returns(last.body) and _always_returns(last.orelse)
+    return False
+
+
+def inline_new_helpers(tree: ast.Module, ref_funcs: Set[str]) -> List[str]:
+    """Calls from reference functions to functions the reference tree does not have are replaced by the helper's body."""
+    import copy
+    helpers: Dict[str, Tuple[ast.FunctionDef, int]] = {}   # call name -> (def, number of leading params to skip: self/cls)
+    for n in tree.body:
+        if isinstance(n, ast.FunctionDef) and n.name not in ref_funcs:
+            helpers[n.name] = (n, 0)
+        elif isinstance(n, ast.ClassDef):
+            for m in n.body:
+                if isinstance(m, ast.FunctionDef) and f"{n.name}.{m.name}" not in ref_funcs:
+                    static = any(ast.unparse(d) == "staticmethod" for d in m.decorator_list)
+                    helpers[f"self.{m.name}"] = (m, 0 if static else 1)
+                    helpers[f"{n.name}.{m.name}"] = (m, 0 if static else 1)
+                    helpers[f"cls.{m.name}"] = (m, 0 if static else 1)
+    if not helpers:
+        return []
+    done: List[str] = []
+    for q, fn in _function_nodes(tree):
+        if q not in ref_funcs:
+            continue
+        for _round in range(6):
+            hit = False
+            for owner, block in _blocks(fn):
+                for i, st in enumerate(block):
+                    header = st
+                    if isinstance(st, (ast.If, ast.While)):
+                        header = st.test
+                        if isinstance(st, ast.While):
+                            continue
+                    elif isinstance(st, ast.For):
+                        header = st.iter
+                    elif isinstance(st, (ast.With, ast.Try, ast.FunctionDef, ast.ClassDef)):
+                        continue
+                    calls = [c for c in ast.walk(header) if isinstance(c, ast.Call) and ast.unparse(c.func) in helpers]
+                    if not calls:
+                        continue
+                    c = calls[0]
+                    h, skip = helpers[ast.unparse(c.func)]
+                    sh = _simple_helper(h)
+                    multi = None
+                    if sh is None:
+                        # several returns in tail position: possible when the call is the whole right-hand side / returned value / statement
+                        whole = (isinstance(st, (ast.Assign, ast.Return, ast.Expr)) and st.value is c
+                                 and (not isinstance(st, ast.Assign) or (len(st.targets) == 1 and _is_pure(st.targets[0]))))
+                        rt = _return_tree(h) if whole else None
+                        if rt is None:
+                            continue
+                        sh = (rt, None)
+                        multi = st
+                    hbody, hret = sh
+                    # the call must be evaluated exactly once, unconditionally, when the statement runs
+                    par: Dict[int, ast.AST] = {}
+                    for p_ in ast.walk(header):
+                        for ch in ast.iter_child_nodes(p_):
+                            par[id(ch)] = p_
+                    cur, cond = c, False
+                    while id(cur) in par:
+                        up = par[id(cur)]
+                        if isinstance(up, (ast.Lambda, ast.ListComp, ast.SetComp, ast.DictComp, ast.GeneratorExp)) or \
+                                (isinstance(up, ast.IfExp) and cur is not up.test) or (isinstance(up, ast.BoolOp) and cur is not up.values[0]):
+                            cond = True
+                        cur = up
+                    if cond and hbody:
+                        continue
+                    params = [a.arg for a in h.args.args][skip:]
+                    defaults = h.args.defaults
+                    bound: Dict[str, ast.AST] = {}
+                    for pn, av in zip(params, c.args):
+                        bound[pn] = av
+                    for kw in c.keywords:
+                        if kw.arg in params:
+                            bound[kw.arg] = kw.value
+                    for pn, dv in zip(params[len(params) - len(defaults):], defaults):
+                        bound.setdefault(pn, dv)
+                    if set(bound) != set(params) or len(c.args) > len(params) or any(kw.arg is None for kw in c.keywords):
+                        continue
+                    hstores = _stores_in(hbody)
+                    hlocals = {n.id for s_ in hbody for n in ast.walk(s_) if isinstance(n, ast.Name) and isinstance(n.ctx, ast.Store)} - set(params)
+                    caller_names = {n.id for n in ast.walk(fn) if isinstance(n, ast.Name)} | _params(fn)
+                    ren: Dict[str, str] = {}
+                    # a helper local may keep its name although the caller has a variable of that name when the caller's variable is dead across
+                    # the call: the call is not inside a loop and, after it, the caller assigns the name before reading it (or the call assigns it)
+                    in_loop = any(isinstance(l_, (ast.For, ast.While)) and any(x is st for x in ast.walk(l_)) for l_ in ast.walk(fn))
+
+                    def dead_across(name) -> bool:
+                        if in_loop or block is not fn.body:
+                            return False
+                        if isinstance(st, ast.Assign) and any(isinstance(t_, ast.Name) and t_.id == name for t_ in st.targets):
+                            # the statement assigns it; the value must not also read the caller's variable of that name
+                            return not any(isinstance(n_, ast.Name) and n_.id == name and isinstance(n_.ctx, ast.Load) for n_ in ast.walk(st.value) if n_ is not c)
+                        if isinstance(st, ast.Return) and block is fn.body:
+                            # nothing runs after the call. The caller's variable may be an argument: then every read of the parameter it is bound to
+                            # must come no later than the helper's first assignment to its own local of that name
+                            ps = [pn_ for pn_, av_ in bound.items() if isinstance(av_, ast.Name) and av_.id == name]
+                            first_store = next((k_ for k_, hs_ in enumerate(hbody) if name in _stores_in([hs_])), len(hbody))
+                            for pn_ in ps:
+                                for k_, hs_ in enumerate(hbody + ([ast.Expr(value=hret)] if hret is not None else [])):
+                                    if k_ > first_store and any(isinstance(n_, ast.Name) and n_.id == pn_ and isinstance(n_.ctx, ast.Load) for n_ in ast.walk(hs_)):
+                                        return False
+                            others = [n_ for n_ in ast.walk(st) if isinstance(n_, ast.Name) and n_.id == name and not any(n_ is a_ for a_ in c.args)]
+                            return not others
+                        if any(isinstance(n_, ast.Name) and n_.id == name for n_ in ast.walk(st)):
+                            return False
+                        for later in block[i + 1:]:
+                            occ = [n_ for n_ in ast.walk(later) if isinstance(n_, ast.Name) and n_.id == name]
+                            if not occ:
+                                continue
+                            return (isinstance(later, ast.Assign) and len(later.targets) == 1 and isinstance(later.targets[0], ast.Name) and later.targets[0].id == name
+                                    and not any(isinstance(n_, ast.Name) and n_.id == name for n_ in ast.walk(later.value)))
+                        return True
+                    for ln in sorted(hlocals):
+                        if ln in caller_names and dead_across(ln):
+                            continue
+                        if ln in caller_names:
+                            k = 1
+                            while f"{ln}_{k}" in caller_names or f"{ln}_{k}" in hlocals:
+                                k += 1
+                            ren[ln] = f"{ln}_{k}"
+                    body = [copy.deepcopy(s_) for s_ in hbody]
+                    rexp = copy.deepcopy(hret) if hret is not None else ast.Constant(value=None)
+                    pre: List[ast.stmt] = []
+                    subst: Dict[str, ast.AST] = {}
+                    for pn in params:
+                        av = bound[pn]
+                        n_reads = sum(1 for s_ in hbody + ([ast.Expr(value=hret)] if hret is not None else []) for n in ast.walk(s_)
+                                      if isinstance(n, ast.Name) and n.id == pn and isinstance(n.ctx, ast.Load))
+                        rebound = any(isinstance(n, ast.Name) and n.id == pn and isinstance(n.ctx, ast.Store) for s_ in hbody for n in ast.walk(s_))
+                        simple = isinstance(av, (ast.Name, ast.Constant)) or (isinstance(av, ast.Attribute) and isinstance(av.value, ast.Name))
+                        if not rebound and (simple or (not hbody and _is_pure(av))):
+                            subst[pn] = av
+                        else:
+                            tgt = pn
+                            if tgt in caller_names and not (isinstance(av, ast.Name) and av.id == pn):
+                                k = 1
+                                while f"{pn}_{k}" in caller_names:
+                                    k += 1
+                                tgt = f"{pn}_{k}"
+                                ren[pn] = tgt
+                            if not (isinstance(av, ast.Name) and av.id == tgt):
+                                pre.append(ast.copy_location(ast.Assign(targets=[ast.Name(id=tgt, ctx=ast.Store())], value=copy.deepcopy(av)), st))
+                    if ren:
+                        r_ = _Rename(ren)
+                        body = [r_.visit(s_) for s_ in body]
+                        rexp = r_.visit(ast.Expr(value=rexp)).value
+                    if subst:
+                        s_ = _Subst(subst)
+                        body = [s_.visit(x) for x in body]
+                        rexp = s_.visit(ast.Expr(value=rexp)).value
+
+                    class _Rep(ast.NodeTransformer):
+                        def visit_Call(self, node):
+                            if node is c:
+                                return rexp
+                            return self.generic_visit(node)
+                    if isinstance(st, ast.If):
+                        st.test = _Rep().visit(st.test)
+                        new_st = [st]
+                    elif isinstance(st, ast.For):
+                        st.iter = _Rep().visit(st.iter)
+                        new_st = [st]
+                    elif isinstance(st, ast.Expr) and st.value is c:
+                        new_st = []     # procedure call: the body is the whole effect
+                    else:
+                        new_st = [_Rep().visit(st)]
+                    if multi is not None:
+                        # every `__verif_ret__ = E` becomes the caller's statement with E in place of the call
+                        new_st = []
+
+                        def finish(stmts):
+                            out_ = []
+                            for x_ in stmts:
+                                if isinstance(x_, ast.Assign) and isinstance(x_.targets[0], ast.Name) and x_.targets[0].id == RETVAR:
+                                    if isinstance(multi, ast.Assign):
+                                        y_ = ast.copy_location(ast.Assign(targets=copy.deepcopy(multi.targets), value=x_.value), x_)
+                                        if isinstance(y_.targets[0], ast.Name) and isinstance(y_.value, ast.Name) and y_.value.id == y_.targets[0].id:
+                                            continue
+                                    elif isinstance(multi, ast.Return):
+                                        y_ = ast.copy_location(ast.Return(value=x_.value), x_)
+                                    else:
+                                        y_ = ast.copy_location(ast.Expr(value=x_.value), x_)
+                                    out_.append(y_)
+                                    continue
+                                if isinstance(x_, ast.If):
+                                    x_.body = finish(x_.body) or [ast.copy_location(ast.Pass(), x_)]
+                                    x_.orelse = finish(x_.orelse)
+                                out_.append(x_)
+                            return out_
+                        body = finish(body)
+                    new_st = [x_ for x_ in new_st if not (isinstance(x_, ast.Assign) and len(x_.targets) == 1 and isinstance(x_.targets[0], ast.Name)
+                                                          and isinstance(x_.value, ast.Name) and x_.value.id == x_.targets[0].id)]
+                    block[i:i + 1] = pre + body + new_st
+                    if not block:
+                        block.append(ast.copy_location(ast.Pass(), st))
+                    ast.fix_missing_locations(fn)
+                    done.append(f"{q} <- {h.name}")
+                    hit = True
+                    break
+                if hit:
+                    break
+            if not hit:
+                break
+    # helpers whose every call in this module was inlined are verified in their callers' context, not on their own
+    inlined = {d.split(" <- ")[1] for d in done}
+    for nm in inlined:
+        still = [c for c in ast.walk(tree) if isinstance(c, ast.Call) and ast.unparse(c.func).split(".")[-1] == nm]
+        if not still:
+            for key, (h, _) in helpers.items():
+                if h.name == nm:
+                    h._verif_inlined = True
+    return done
+
+
+# ------------------------------------------------------------------ generic control-flow normal forms (exact equivalences)
+
+def negate(test: ast.AST) -> ast.AST:
+    """Logical negation in simplified form: flipped comparison, De Morgan, double negation removed."""
+    import copy
+    flip = {ast.Eq: ast.NotEq, ast.NotEq: ast.Eq, ast.Is: ast.IsNot, ast.IsNot: ast.Is, ast.In: ast.NotIn, ast.NotIn: ast.In}
+    if isinstance(test, ast.UnaryOp) and isinstance(test.op, ast.Not):
+        return copy.deepcopy(test.operand)
+    if isinstance(test, ast.Compare) and len(test.ops) == 1 and type(test.ops[0]) in flip:
+        # (==, !=, is, is not, in, not in) have exact complements for every operand, NaN included; < and >= do not (NaN)
+        return ast.copy_location(ast.Compare(left=copy.deepcopy(test.left), ops=[flip[type(test.ops[0])]()], comparators=copy.deepcopy(test.comparators)), test)
+    if isinstance(test, ast.BoolOp):
+        op = ast.Or() if isinstance(test.op, ast.And) else ast.And()
+        return ast.copy_location(ast.BoolOp(op=op, values=[negate(v) for v in test.values]), test)
+    return ast.copy_location(ast.UnaryOp(op=ast.Not(), operand=copy.deepcopy(test)), test)
+
+
+def while_to_for(fn: ast.FunctionDef) -> int:
+    """`i = A` ; `while i >= B: BODY ; i -= 1`  ->  `for i in range(A, B - 1, -1): BODY` (and the ascending twin), when BODY neither assigns
+    `i` nor contains `continue`/`break` at its own level, and `i` is not read after the loop before being assigned again."""
+    n_done = 0
+    for owner, block in _blocks(fn):
+        i = 0
+        while i + 1 < len(block):
+            a, w = block[i], block[i + 1]
+            i += 1
+            if not (isinstance(a, ast.Assign) and len(a.targets) == 1 and isinstance(a.targets[0], ast.Name) and isinstance(w, ast.While) and not w.orelse):
+                continue
+            v = a.targets[0].id
+            t = w.test
+            if not (isinstance(t, ast.Compare) and len(t.ops) == 1 and isinstance(t.left, ast.Name) and t.left.id == v and w.body):
+                continue
+            last = w.body[-1]
+            step = None
+            if isinstance(last, ast.AugAssign) and isinstance(last.target, ast.Name) and last.target.id == v and isinstance(last.value, ast.Constant) and last.value.value == 1:
+                step = -1 if isinstance(last.op, ast.Sub) else 1 if isinstance(last.op, ast.Add) else None
+            elif isinstance(last, ast.Assign) and isinstance(last.targets[0], ast.Name) and last.targets[0].id == v and isinstance(last.value, ast.BinOp) \
+                    and isinstance(last.value.left, ast.Name) and last.value.left.id == v and isinstance(last.value.right, ast.Constant) and last.value.right.value == 1:
+                step = -1 if isinstance(last.value.op, ast.Sub) else 1 if isinstance(last.value.op, ast.Add) else None
+            if step is None:
+                continue
+            body = w.body[:-1]
+            if v in _stores_in(body) or any(isinstance(n, (ast.Continue, ast.Break)) for b in body for n in ast.walk(b)):
+                continue
+            bound = t.comparators[0]
+            if any(isinstance(n, ast.Name) and n.id in _stores_in(body) for n in ast.walk(bound)):
+                continue
+            op = t.ops[0]
+            one = ast.Constant(value=1)
+            if step == -1 and isinstance(op, ast.GtE):
+                stop = ast.BinOp(left=bound, op=ast.Sub(), right=one)
+            elif step == -1 and isinstance(op, ast.Gt):
+                stop = bound
+            elif step == 1 and isinstance(op, ast.Lt):
+                stop = bound
+            elif step == 1 and isinstance(op, ast.LtE):
+                stop = ast.BinOp(left=bound, op=ast.Add(), right=one)
+            else:
+                continue
+            # i must not be read after the loop (its final value differs between the two forms)
+            after = block[i + 1:]
+            read_after = False
+            for st in after:
+                names = [n for n in ast.walk(st) if isinstance(n, ast.Name) and n.id == v]
+                if any(isinstance(n.ctx, ast.Load) for n in names):
+                    read_after = True
+                    break
+                if names:
+                    break
+            if read_after:
+                continue
+            args = [a.value, stop] + ([ast.UnaryOp(op=ast.USub(), operand=ast.Constant(value=1))] if step == -1 else [])
+            # normalise `range(A, B - 1, -1)` with B constant
+            if isinstance(stop, ast.BinOp) and isinstance(stop.left, ast.Constant) and isinstance(stop.left.value, int):
+                stop2 = ast.Constant(value=stop.left.value + (1 if isinstance(stop.op, ast.Add) else -1))
+                args[1] = stop2 if stop2.value >= 0 else ast.UnaryOp(op=ast.USub(), operand=ast.Constant(value=-stop2.value))
+            f = ast.For(target=ast.Name(id=v, ctx=ast.Store()), iter=ast.Call(func=ast.Name(id="range", ctx=ast.Load()), args=args, keywords=[]),
+                        body=body or [ast.Pass()], orelse=[], type_comment=None)
+            ast.copy_location(f, w)
+            block[i - 1:i + 1] = [f]
+            ast.fix_missing_locations(f)
+            n_done += 1
+            i -= 1
+    return n_done
+
+
+def ifexp_to_if(fn: ast.FunctionDef, keep_targets: Set[str]) -> int:
+    """`T = a if c else b` -> `if c: T = a` / `else: T = b`, except for the targets the reference function itself assigns that way."""
+    import copy
+    n = 0
+    for owner, block in _blocks(fn):
+        for i, st in enumerate(block):
+            if isinstance(st, ast.Assign) and len(st.targets) == 1 and isinstance(st.value, ast.IfExp) and ast.unparse(st.targets[0]) not in keep_targets:
+                t = st.targets[0]
+                if not _is_pure(t):
+                    continue
+                a = ast.copy_location(ast.Assign(targets=[copy.deepcopy(t)], value=st.value.body), st)
+                b = ast.copy_location(ast.Assign(targets=[copy.deepcopy(t)], value=st.value.orelse), st)
+                block[i] = ast.copy_location(ast.If(test=st.value.test, body=[a], orelse=[b]), st)
+                ast.fix_missing_locations(block[i])
+                n += 1
+    return n
+
+
+def whole_array_rhs(fn: ast.FunctionDef) -> int:
+    """`X[:] = Y` / `X[0:m] = Y` with Y a bare array name -> `... = Y[:]` (NumPy copies the same cells either way)."""
+    subscripted = {n.value.id for n in ast.walk(fn) if isinstance(n, ast.Subscript) and isinstance(n.value, ast.Name)}
+    # also: names iterated over element-wise, or created by an array constructor (a sequence supports [:] with the same cells)
+    subscripted |= {n.iter.id for n in ast.walk(fn) if isinstance(n, (ast.For, ast.comprehension)) and isinstance(n.iter, ast.Name)}
+    subscripted |= {st.targets[0].id for st in ast.walk(fn) if isinstance(st, ast.Assign) and isinstance(st.targets[0], ast.Name) and isinstance(st.value, ast.Call)
+                    and ast.unparse(st.value.func).split(".")[-1] in ("zeros", "ones", "where", "copy", "full", "full_like", "zeros_like", "array", "arange", "ws2d")}
+    n_done = 0
+    for st in ast.walk(fn):
+        if isinstance(st, ast.Assign) and len(st.targets) == 1 and isinstance(st.targets[0], ast.Subscript) and isinstance(st.targets[0].slice, ast.Slice) \
+                and st.targets[0].slice.step is None and isinstance(st.value, ast.Name) and st.value.id in subscripted:
+            st.value = ast.copy_location(ast.Subscript(value=st.value, slice=ast.Slice(lower=None, upper=None, step=None), ctx=ast.Load()), st.value)
+            ast.fix_missing_locations(st)
+            n_done += 1
+    return n_done
+
+
+def unguard_continue(fn: ast.FunctionDef) -> int:
+    """Loop body `... ; if c: S ; continue ; REST`  ->  `... ; if c: S else: REST` (exact: `continue` at the end of an if-body that is a direct
+    statement of the loop body only skips REST). With S empty: `if not c: REST`."""
+    n = 0
+    changed = True
+    while changed:
+        changed = False
+        for loop in ast.walk(fn):
+            if not isinstance(loop, (ast.For, ast.While)):
+                continue
+            # work on the loop body and, recursively, on else-branches created here (they are still "rest of the loop body")
+            stack = [loop.body]
+            while stack:
+                block = stack.pop()
+                for i, st in enumerate(block):
+                    if isinstance(st, ast.If) and st.body and isinstance(st.body[-1], ast.Continue) and not st.orelse:
+                        rest = block[i + 1:]
+                        pre = st.body[:-1]
+                        if any(isinstance(x, (ast.Continue, ast.Break)) for b in pre for x in ast.walk(b)):
+                            continue
+                        if not rest:
+                            # a trailing `continue` is a no-op
+                            st.body = pre or [ast.copy_location(ast.Pass(), st)]
+                        elif pre:
+                            st.body = pre
+                            st.orelse = rest
+                            del block[i + 1:]
+                            stack.append(st.orelse)
+                        else:
+                            st.test = negate(st.test)
+                            st.body = rest
+                            del block[i + 1:]
+                            stack.append(st.body)
+                        ast.fix_missing_locations(st)
+                        n += 1
+                        changed = True
+                        break
+                    if isinstance(st, ast.If):
+                        # `continue` nested as the last statement of an else-chain at the end of the block is handled when it becomes direct
+                        pass
+                if changed:
+                    break
+            if changed:
+                break
+    return n
+
+
+def ifexp_targets(fn: ast.FunctionDef) -> List[str]:
+    return sorted({ast.unparse(st.targets[0]) for st in ast.walk(fn) if isinstance(st, ast.Assign) and len(st.targets) == 1 and isinstance(st.value, ast.IfExp)})
+
+
 def snapshot(tree: ast.Module) -> Dict[str, List[List[str]]]:
-    return {q: [list(x) for x in local_bindings(fn)] for q, fn in _function_nodes(tree)}
+    out = {q: [list(x) for x in local_bindings(fn)] for q, fn in _function_nodes(tree)}
+    out["<ifexp>"] = {q: ifexp_targets(fn) for q, fn in _function_nodes(tree) if ifexp_targets(fn)}
+    return out
